@@ -97,7 +97,8 @@ ASSUME AlphabetTablesAgree ==
 (* the last character filled up with zero "pad" bits.  A window of the stream is read as a     *)
 (* number: at most three neighbouring units cover any 8-bit or g-bit window.                   *)
 At(seq, i) == IF i \in DOMAIN seq THEN seq[i] ELSE 0
-\* the `n` bits starting at 0-based bit offset `off` of a stream of `u`-bit units (n <= u + 1 .. 2u)
+\* the `n` bits starting at 0-based bit offset `off` of a stream of `u`-bit units; needs (off % u) + n <= 3u,
+\* true for the three uses: 6 or 5 bits out of bytes, 8 bits out of 6-bit or 5-bit characters
 Window(seq, u, off, n) ==
   LET k   == (off \div u) + 1
       x   == (At(seq, k) * Pow2(u) + At(seq, k + 1)) * Pow2(u) + At(seq, k + 2)
